@@ -325,6 +325,11 @@ func (ms *Modules) process() []error {
 	for _, m := range ms.Modules {
 		mods = append(mods, m)
 	}
+	// A submodule that no loaded module includes (an older revision, say)
+	// has includes and imports of its own.
+	for _, m := range ms.SubModules {
+		mods = append(mods, m)
+	}
 	for _, m := range mods {
 		if err := ms.include(m); err != nil {
 			errs = append(errs, err)
